@@ -1,6 +1,7 @@
 package chk
 
 import (
+	"go/types"
 	"fmt"
 	"go/token"
 	"strings"
@@ -77,6 +78,52 @@ func ruleIterFresh(p *Prog, r *Report, names []string) {
 				r.Bad(rule, n, construct, p.Pos(st.Pos()), "the value stored in this iteration's record can be left over from an earlier iteration (loop-carried: "+strings.Join(uniq(carried), ", ")+")")
 			}
 		})
+		if cnt == 0 {
+			// the record may be built by a helper called once per iteration: then its arguments must be of this iteration only
+			eachInstr(fn, func(b *ssa.BasicBlock, in ssa.Instruction) {
+				c, ok := in.(*ssa.Call)
+				if !ok {
+					return
+				}
+				h := staticCallee(&c.Call)
+				if h == nil || !p.InModule(h) || len(h.Blocks) == 0 || h == fn {
+					return
+				}
+				builds := false
+				eachInstr(h, func(hb *ssa.BasicBlock, hi ssa.Instruction) {
+					if al, ok := hi.(*ssa.Alloc); ok {
+						if _, isStruct := derefType(al.Type()).Underlying().(*types.Struct); isStruct {
+							builds = true
+						}
+					}
+				})
+				hdr := innermostLoopHeader(b)
+				if !builds || hdr == nil {
+					return
+				}
+				cnt++
+				construct := ord.key(n, "record built by "+p.Name(h))
+				var carried []string
+				for _, a := range c.Call.Args {
+					for v := range backwardSlice(fn, a) {
+						ph, isPhi := v.(*ssa.Phi)
+						if !isPhi || ph.Block() != hdr || isInductionPhi(ph) {
+							continue
+						}
+						for i, pr := range hdr.Preds {
+							if hdr.Dominates(pr) && (ph.Edges[i] == ssa.Value(ph) || backwardSlice(fn, ph.Edges[i])[ph]) {
+								carried = append(carried, ph.Comment)
+							}
+						}
+					}
+				}
+				if len(carried) == 0 {
+					r.OK(rule, n, construct, p.Pos(c.Pos()), "the helper gets values of the current iteration only")
+				} else {
+					r.Bad(rule, n, construct, p.Pos(c.Pos()), "the record is built from a value left over from an earlier iteration (loop-carried: "+strings.Join(uniq(carried), ", ")+")")
+				}
+			})
+		}
 		if cnt == 0 {
 			r.Unknown(rule, n, "per-iteration records", p.Pos(fn.Pos()), "no record built inside a loop was found")
 		}
@@ -525,4 +572,107 @@ func ruleIoNoBuffer(p *Prog, r *Report, scope []*ssa.Function, what string) {
 		})
 	}
 	r.OK(rule, what, "no read-ahead wrapper", "", fmt.Sprintf("%d functions reachable from the stream decoders (%d static calls): none wraps a reader in a buffering reader", len(scope), nCalls))
+}
+
+// WALK.reentry (C15) — a recursive call that passes the node it was given (no descent) terminates only if the thing that made it
+// recurse cannot hold again. The shape in this library: under `seg == "*"` a walker calls itself for every key k of the map with k
+// as the new segment and the same map; if a key is literally "*" the call re-enters the same branch with the same arguments:
+// unbounded recursion, a fatal stack overflow no recover() can stop. Required: every self call that passes all of its container
+// arguments unchanged is dominated by a test that the new value of the guarding parameter differs from the guard's constant.
+func ruleWalkReentry(p *Prog, r *Report, fns []*ssa.Function) {
+	const rule = "WALK.reentry"
+	n := 0
+	for _, fn := range fns {
+		if len(fn.Blocks) == 0 {
+			continue
+		}
+		name := p.Name(fn)
+		ord := newOrdinals()
+		for _, c := range selfCalls(fn) {
+			// does any container / path argument shrink? (an argument that is not the parameter itself)
+			sameNode := true
+			var changed []int
+			for i, a := range c.Call.Args {
+				if i >= len(fn.Params) {
+					continue
+				}
+				prm := fn.Params[i]
+				if a == ssa.Value(prm) {
+					continue
+				}
+				switch prm.Type().Underlying().(type) {
+				case *types.Basic:
+					if isStringType(prm.Type()) {
+						changed = append(changed, i)
+						continue
+					}
+				}
+				// a different node, slice, map …: the recursion works on something else
+				sameNode = false
+			}
+			if !sameNode || len(changed) == 0 {
+				continue
+			}
+			n++
+			construct := ord.key(name, "recursion on the same node")
+			okAll := true
+			why := ""
+			for _, i := range changed {
+				prm := fn.Params[i]
+				// the guard under which the call happens: prm == C
+				var consts []string
+				for _, g := range dominatingGuards(c.Block()) {
+					ng := normGuard(g)
+					bo, ok := ng.Cond.(*ssa.BinOp)
+					if !ok || (bo.Op != token.EQL && bo.Op != token.NEQ) || (bo.Op == token.EQL) != ng.Pol {
+						continue
+					}
+					if bo.X == ssa.Value(prm) {
+						if sc, isS := constString(bo.Y); isS {
+							consts = append(consts, sc)
+						}
+					} else if bo.Y == ssa.Value(prm) {
+						if sc, isS := constString(bo.X); isS {
+							consts = append(consts, sc)
+						}
+					}
+				}
+				if len(consts) == 0 {
+					okAll, why = false, "the call is not under a test of parameter "+prm.Name()+" against a constant: nothing bounds the recursion"
+					continue
+				}
+				arg := c.Call.Args[i]
+				for _, cst := range consts {
+					if sc, isS := constString(arg); isS && sc != cst {
+						continue
+					}
+					excluded := false
+					for _, g := range dominatingGuards(c.Block()) {
+						ng := normGuard(g)
+						bo, ok := ng.Cond.(*ssa.BinOp)
+						if !ok || (bo.Op != token.EQL && bo.Op != token.NEQ) || (bo.Op == token.NEQ) != ng.Pol {
+							continue
+						}
+						if (bo.X == arg && isConstStr(bo.Y, cst)) || (bo.Y == arg && isConstStr(bo.X, cst)) {
+							excluded = true
+						}
+					}
+					if !excluded {
+						okAll, why = false, fmt.Sprintf("under %s == %q the function calls itself with the same node and a new %s that may again be %q (a key of that name): unbounded recursion, stack overflow", prm.Name(), cst, prm.Name(), cst)
+					}
+				}
+			}
+			if okAll {
+				r.OK(rule, name, construct, p.Pos(c.Pos()), "the new segment is tested different from the constant that triggers the recursion")
+			} else {
+				r.Bad(rule, name, construct, p.Pos(c.Pos()), why)
+			}
+		}
+	}
+	r.OK(rule, "walkers", "self calls on the same node", "", fmt.Sprintf("%d self-recursive calls that pass their node unchanged examined in %d functions", n, len(fns)))
+}
+
+func isConstStr(v ssa.Value, s string) bool {
+	sc, ok := constString(v)
+	return ok && sc == s
 }
